@@ -263,4 +263,24 @@ theorem grammar_rejects (nrcpt : Nat) (signed compressed : Bool) :
   · simp [writerShape, readMessage, tnext]
   · cases signed <;> simp [signedBody, readMessage, tnext]
 
+/-! ## non-vacuity: concrete instances satisfying the hypotheses of the theorems above -/
+
+example : C45.readHeader (serializeHeader 11 300 ++ [1, 2]) = .ok ⟨11, 300, .span 300, [1, 2]⟩ :=
+  header_roundtrip 11 300 (by decide) (by decide) [1, 2]
+example : C45.readHeader (serializeHeader 18 70000 ++ []) = .ok ⟨18, 70000, .span 70000, []⟩ :=
+  header_roundtrip 18 70000 (by decide) (by decide) []
+example : readStream (pwAll [[1, 2], [], [3]] ++ [9]) = ([1, 2, 3], none, [9]) :=
+  partial_roundtrip_any_chunking [[1, 2], [], [3]] [9]
+example : (cthChunks false [[97, 13], [10, 10], [98]]).2 = C46.cth [97, 13, 10, 10, 98] :=
+  canonical_text_eq_cth [[97, 13], [10, 10], [98]]
+example : C46.cth [97, 13, 10, 10, 98] = [97, 13, 10, 13, 10, 98] := by decide
+/-- a 30-byte body, reads of 5/1024/0 bytes over an underlying reader that returns 3, 1, 7, … bytes at a time -/
+example : ∃ rest, ((mdcSession (fun _ => List.replicate 20 0) [1, 2] {} ⟨List.replicate 30 7, [3, 1, 7]⟩ [5, 1024, 0]).1.map (·.1)).flatten ++ rest
+    = (List.replicate 30 (7 : UInt8)).take 8 :=
+  (mdc_window (fun _ => List.replicate 20 0) [1, 2] (List.replicate 30 7) [3, 1, 7] [5, 1024, 0] (by decide)).2.2
+example : (sigHashSuffix 0 1 8 1700000000 0xA34D7E18C20C31BB).drop 22 = [4, 0xff, 0, 0, 0, 22] :=
+  (sig_trailer_layout 0 1 8 1700000000 0xA34D7E18C20C31BB).2.2.2
+example : readMessage true 0 (writerShape "pk" 2 true false) = .ok true true true :=
+  (signed_message_grammar 2 true false (by decide)).2.1
+
 end XC.C44
